@@ -44,8 +44,10 @@ structure Closed (B Inv : State → Held → Prop) : Prop where
     getF s.objs c.key = some f → s.fdtQueue.isEmpty = true → gateBlocked f now = false →
     encRead f.nSym c.enc (canStop f && !s.files.contains c.key) = (some (idx, b), e) →
     Inv (pktStep s prio c.key now idx b) ((prio, { c with enc := e }) :: L)
+  /-- the end of a transfer: the encoder yields nothing more - also the release of a transfer attempt that failed
+      to start (then before the pending-FDT test and the pacing gate: no hypothesis about them) -/
   done : ∀ s L prio c now f e, B s ((prio, c) :: L) → Inv s ((prio, c) :: L) → s.quiet = true →
-    getF s.objs c.key = some f → s.fdtQueue.isEmpty = true → gateBlocked f now = false →
+    getF s.objs c.key = some f →
     encRead f.nSym c.enc (canStop f && !s.files.contains c.key) = (none, e) →
     Inv (transferDoneFile s c.key now) L
   fdtPkt : ∀ s L c f now idx b e, B s L → Inv s L → s.quiet = false → s.fdtSess = some c →
@@ -84,8 +86,8 @@ theorem Closed.and {B A : State → Held → Prop} (hb : Closed0 B) (ha : Closed
     ⟨hb.fileStart s L prio now tk t trivial h.1 hq e, ha.fileStart s L prio now tk t h.1 h.2 hq e⟩
   pkt := fun s L prio c now f idx b e _ h hq h1 h2 h3 h4 =>
     ⟨hb.pkt s L prio c now f idx b e trivial h.1 hq h1 h2 h3 h4, ha.pkt s L prio c now f idx b e h.1 h.2 hq h1 h2 h3 h4⟩
-  done := fun s L prio c now f e _ h hq h1 h2 h3 h4 =>
-    ⟨hb.done s L prio c now f e trivial h.1 hq h1 h2 h3 h4, ha.done s L prio c now f e h.1 h.2 hq h1 h2 h3 h4⟩
+  done := fun s L prio c now f e _ h hq h1 h4 =>
+    ⟨hb.done s L prio c now f e trivial h.1 hq h1 h4, ha.done s L prio c now f e h.1 h.2 hq h1 h4⟩
   fdtPkt := fun s L c f now idx b e _ h hq h1 h2 h3 h4 =>
     ⟨hb.fdtPkt s L c f now idx b e trivial h.1 hq h1 h2 h3 h4, ha.fdtPkt s L c f now idx b e h.1 h.2 hq h1 h2 h3 h4⟩
   fdtDone := fun s L c f now e _ h hq h1 h2 h3 h4 =>
@@ -338,6 +340,46 @@ theorem runFdt_inv (hc : Closed0 Inv) : ∀ fuel s now L, Inv s L → s.quiet = 
       simp only []
       exact key _ (fdtGetNext_inv hc s L now h hq hs) (by rw [fdtGetNext_quiet]; exact hq)
 
+/-- what `openFailed` returning something means -/
+theorem openFailed_some {fr : Bool} {s : State} {cur : Option Cur} {k : Nat} {f : FileDesc}
+    (h : openFailed fr s cur = some (k, f)) :
+    fr = true ∧ ∃ c, cur = some c ∧ c.key = k ∧ c.openFail = true ∧ getF s.objs k = some f := by
+  unfold openFailed at h
+  cases cur with
+  | none => cases h
+  | some c =>
+    simp only [] at h
+    by_cases hc : (fr && c.openFail) = true
+    · rw [if_pos hc] at h
+      cases hg : getF s.objs c.key with
+      | none => rw [hg] at h; cases h
+      | some g =>
+        rw [hg] at h
+        simp only [Option.map_some, Option.some.injEq, Prod.mk.injEq] at h
+        obtain ⟨e1, e2⟩ := h
+        subst e1; subst e2
+        simp only [Bool.and_eq_true] at hc
+        exact ⟨hc.1, c, rfl, rfl, hc.2, hg⟩
+    · rw [if_neg hc] at h; cases h
+
+theorem openFailed_false (s : State) (cur : Option Cur) : openFailed false s cur = none := by
+  unfold openFailed; cases cur <;> simp
+
+/-- the encoder of a failed open yields nothing -/
+theorem startCur_openFail (s : State) (t : Nat) (h : (startCur s t).openFail = true) :
+    (startCur s t).enc.stopped = true := by
+  unfold startCur at h ⊢
+  cases hg : getF s.objs t with
+  | none => rw [hg] at h; cases h
+  | some f =>
+    rw [hg] at h
+    simp only [] at h ⊢
+    have : f.info.attempt = some 0 := by simpa using h
+    rw [this]; rfl
+
+theorem encRead_stopped (n : Nat) (e : Enc) (force : Bool) (h : e.stopped = true) : encRead n e force = (none, e) := by
+  unfold encRead; rw [if_pos h]
+
 theorem runFile_inv (hc : Closed0 Inv) : ∀ fuel s prio cur now ticks O,
     Inv s (optHeld prio cur ++ O) → s.quiet = true →
     Inv (runFile fuel s prio cur now ticks).1 (optHeld prio (runFile fuel s prio cur now ticks).2.1 ++ O) ∧
@@ -347,7 +389,7 @@ theorem runFile_inv (hc : Closed0 Inv) : ∀ fuel s prio cur now ticks O,
   | zero => intro s prio cur now ticks O h hq; exact ⟨by simpa [runFile] using h, by simpa [runFile] using hq⟩
   | succ n ih =>
     intro s prio cur now ticks O h hq
-    have key : ∀ (s1 : State) (cur1 : Option Cur), Inv s1 (optHeld prio cur1 ++ O) → s1.quiet = true →
+    have key : ∀ (fr : Bool) (s1 : State) (cur1 : Option Cur), Inv s1 (optHeld prio cur1 ++ O) → s1.quiet = true →
         let r := (if !s1.fdtQueue.isEmpty then (s1, cur1, Out.none) else
           match cur1 with
           | none => (s1, none, Out.none)
@@ -357,10 +399,12 @@ theorem runFile_inv (hc : Closed0 Inv) : ∀ fuel s prio cur now ticks O,
             | some f =>
               if gateBlocked f now then (s1, cur1, Out.none) else
               match encRead f.nSym c.enc (canStop f && !s1.files.contains c.key) with
-              | (none, _) => runFile n (transferDoneFile s1 c.key now) prio none now ticks
+              | (none, _) =>
+                if fr then (transferDoneFile s1 c.key now, none, Out.none)
+                else runFile n (transferDoneFile s1 c.key now) prio none now ticks
               | (some (idx, b), e) => (pktStep s1 prio c.key now idx b, some { c with enc := e }, Out.pkt prio c.key idx b))
         Inv r.1 (optHeld prio r.2.1 ++ O) ∧ r.1.quiet = true := by
-      intro s1 cur1 h1 hq1
+      intro fr s1 cur1 h1 hq1
       simp only []
       split
       · exact ⟨h1, hq1⟩
@@ -377,14 +421,22 @@ theorem runFile_inv (hc : Closed0 Inv) : ∀ fuel s prio cur now ticks O,
             · rename_i hg
               split
               · rename_i e he
-                have := hc.done s1 O prio c now f e trivial (by simpa [optHeld] using h1) hq1 hf (by simpa using hqe) (by simpa using hg) he
-                exact ih _ prio none now ticks O (by simpa [optHeld] using this) (by rw [transferDoneFile_quiet]; exact hq1)
+                have := hc.done s1 O prio c now f e trivial (by simpa [optHeld] using h1) hq1 hf he
+                cases fr with
+                | true =>
+                  simp only [if_true]
+                  exact ⟨by simpa [optHeld] using this, by rw [transferDoneFile_quiet]; exact hq1⟩
+                | false =>
+                  simp only [Bool.false_eq_true, if_false]
+                  exact ih _ prio none now ticks O (by simpa [optHeld] using this) (by rw [transferDoneFile_quiet]; exact hq1)
               · rename_i idx b e he
                 have := hc.pkt s1 O prio c now f idx b e trivial (by simpa [optHeld] using h1) hq1 hf (by simpa using hqe) (by simpa using hg) he
                 exact ⟨by simpa [optHeld] using this, hq1⟩
     unfold runFile
     cases cur with
-    | some c => exact key s (some c) h hq
+    | some c =>
+      simp only [openFailed_false]
+      exact key false s (some c) h hq
     | none =>
       simp only []
       cases hg : getNextFile s prio now ticks with
@@ -397,10 +449,24 @@ theorem runFile_inv (hc : Closed0 Inv) : ∀ fuel s prio cur now ticks O,
             · simp at hg; exact hg.symm
             · simp at hg
           subst this
-          exact key s' none h hq
+          exact key true s' none h hq
         | some t =>
           have := getNextFile_inv hc s O prio now ticks s' t (by simpa [optHeld] using h) hq hg
-          exact key s' (some (startCur s' t)) (by simpa [optHeld] using this.1) this.2
+          simp only []
+          cases ho : openFailed true s' (some (startCur s' t)) with
+          | none => exact key true s' (some (startCur s' t)) (by simpa [optHeld] using this.1) this.2
+          | some kf =>
+            obtain ⟨k, f⟩ := kf
+            obtain ⟨_, c, e1, e2, e3, e4⟩ := openFailed_some ho
+            simp only [Option.some.injEq] at e1
+            subst e1
+            have hk : k = t := e2.symm
+            subst hk
+            simp only []
+            have hd := hc.done s' O prio (startCur s' k) now f _ trivial (by simpa [optHeld] using this.1) this.2 e4
+              (encRead_stopped _ _ _ (startCur_openFail s' _ e3))
+            have hd' : Inv (transferDoneFile s' k now) O := hd
+            exact ⟨by simpa [optHeld] using hd', by rw [transferDoneFile_quiet]; exact this.2⟩
 
 theorem heldSlots_get_perm (prio : Nat) : ∀ (l : List (Option Cur)) (i : Nat) (cur : Option Cur),
     l[i]? = some cur → (heldSlots prio l).Perm (optHeld prio cur ++ heldSlots prio (l.eraseIdx i)) := by
